@@ -353,11 +353,11 @@ def run_unit(path, scratch, mutate=None, extra_name=''):
         res.reason = 'zero obligations generated'
     elif not res.reach:
         res.reason = 'no REACH guard in unit'
+    elif res.failed:
+        res.status = 'fail'          # a counterexample to a property-carrying obligation exists, whatever else is unreachable
     elif dead:
         res.vacuous = True
         res.reason = 'vacuity guard: REACH tags not reachable: ' + ' '.join(sorted(dead))
-    elif res.failed:
-        res.status = 'fail'
     elif res.structure_failed:
         res.reason = 'proof-structure obligations fail (%s) with no property-carrying failure: invariant no longer fits the code' % ', '.join('%s [%s]' % (o['id'], o['text'][:90]) for o in res.structure_failed[:4])
     else:
